@@ -142,3 +142,27 @@ Example C04_example :
   map snd (snd (dec_run ex_isfast (fun _ _ => true) [] ex_history)) =
   [Nothing; Deliver [1; 2; 3]; Nothing; Nothing; Nothing; Nothing; Deliver ex_payload; Nothing].
 Proof. exact ex_hyps. Qed.
+
+(* THE CONTROL LAYER PERFORMS THIS REASSEMBLY.  DecoderCtl.v (the model of _decode with filters, identity and the
+   source map: C10, C11, C16) carries its own, independently written, step function for a reassembly record; it
+   is the same function as fp_step above — for every record, every frame (no assumption on the bytes) and every
+   decode outcome — and so are whole frame sequences on a key.  Hence the theorems of this file and of C03 hold
+   for the reassembly inside DecoderCtl.ctl_step. *)
+From NV Require CtlFastBridge.
+Theorem C04_control_layer_step : forall dok st can,
+  NV.CtlFastBridge.as_F dok (NV.DecoderCtl.fp_step st can)
+  = fp_step dok (option_map NV.CtlFastBridge.cv st) can.
+Proof. exact NV.CtlFastBridge.fp_step_same. Qed.
+Print Assumptions C04_control_layer_step.
+
+Theorem C04_control_layer_run : forall dok fs st,
+  (option_map NV.CtlFastBridge.cv (fst (NV.CtlFastBridge.c_run dok st fs)), snd (NV.CtlFastBridge.c_run dok st fs))
+  = run dok (option_map NV.CtlFastBridge.cv st) fs.
+Proof. exact NV.CtlFastBridge.run_same. Qed.
+Print Assumptions C04_control_layer_run.
+
+Theorem C04_control_layer_inverse : forall dok seq p st,
+  0 <= seq < 8 -> zlen p <= 223 -> fresh seq (option_map NV.CtlFastBridge.cv st) ->
+  snd (NV.CtlFastBridge.c_run dok st (segment seq p)) = repeat Nothing (length (segment seq p) - 1) ++ [call dok p].
+Proof. exact NV.CtlFastBridge.ctl_reassembles_segment. Qed.
+Print Assumptions C04_control_layer_inverse.
